@@ -4,7 +4,7 @@ from __future__ import annotations
 import ast
 
 from ..analysis import Analysis, fmt_conj
-from ..cfg import is_back, is_exc
+from ..cfg import branch_of, is_back, is_exc
 from ..model import AnalysisError, NOFOLD, norm, walk_local
 from .runtask import RTE, spawn_calls
 
@@ -33,30 +33,35 @@ def rule_tee1(A: Analysis, rep):
     ok = len(opens) == 1 and norm(opens[0].args[0]) == fname and _open_mode(opens[0]) in ("wb", "bw")
     rep.check(ok, "TEE1", "log opened in binary write mode at the given path", fi.node, "open(file_name, 'wb')",
               "the tee log is opened as open(%s, %r) — text mode / append would alter or mix bytes" % (norm(opens[0].args[0]) if opens else "?", _open_mode(opens[0]) if opens else None))
-    loops = [l for l in walk_local(fi.node) if isinstance(l, ast.While)]
+    loops = [l for l in walk_local(fi.node) if isinstance(l, (ast.While, ast.For))]
     if len(loops) != 1:
         rep.bad("TEE1", "copy loop", fi.node, "expected one read loop, found %d" % len(loops))
         return
     l = loops[0]
-    reads = [s for s in walk_local(l) if isinstance(s, ast.Assign) and isinstance(s.value, ast.Call) and isinstance(s.value.func, ast.Attribute)
+    reads = [s for s in walk_local(fi.node) if isinstance(s, ast.Assign) and isinstance(s.value, ast.Call) and isinstance(s.value.func, ast.Attribute)
              and s.value.func.attr in ("read", "read1", "readline", "readinto") and norm(s.value.func.value) == pipe]
-    if len(reads) != 1:
-        rep.bad("TEE1", "copy loop", l, "expected one read from the pipe per iteration, found %d" % len(reads))
+    names = {norm(r.targets[0]) for r in reads}
+    if not reads or len(names) != 1 or not any(id(r) in {id(x) for x in walk_local(l)} for r in reads):
+        rep.bad("TEE1", "copy loop", l, "expected reads of the pipe into one variable inside the loop, found %s" % [norm(r) for r in reads])
         return
-    data = norm(reads[0].targets[0])
-    rd = g.node_of(reads[0])
-    hdr = [n for n in g.nodes if n.kind == "test" and n.info is l][0]
-    # exits: only `break` under len(data) == 0
-    brks = [b for b in walk_local(l) if isinstance(b, ast.Break)]
-    ok_exit = isinstance(l.test, ast.Constant) and l.test.value is True and len(brks) == 1
-    if ok_exit:
-        bn = g.node_of(brks[0])
-        gs = A.path_guards(g, rd, bn, fi)
-        ok_exit = gs == [frozenset({("empty(%s)" % data, True)})]
-    rets = [x for x in walk_local(l) if isinstance(x, (ast.Return, ast.Raise))]
-    rep.check(ok_exit and not rets, "TEE1", "loop ends only at end of stream", l, "the only exit is `len(data) == 0` (EOF)",
+    data = names.pop()
+    rds = [g.node_of(r) for r in reads]
+    # EOF edges: the branch of a test on the chunk that means "nothing was read"
+    eof_edges = []
+    for n in g.nodes:
+        if n.kind == "test" and n.ast is not None:
+            for pol in (True, False):
+                d = A.dnf(n.ast, pol, fi)
+                if d and all(("empty(%s)" % data, True) in c for c in d):
+                    eof_edges.append((n, "T" if pol else "F"))
+    first = [r for r in rds if g.dominates(r, g.node_of(l) if g.nodes_of(l) else r, skip_labels=is_exc) or id(r.ast) in {id(x) for x in walk_local(l)}]
+    r1 = g.reach(rds, skip_labels=is_exc, removed_edges=eof_edges)
+    rets = [x for x in walk_local(fi.node) if isinstance(x, (ast.Return, ast.Raise))]
+    # and the first read is reached unconditionally (the loop is entered)
+    ent = g.reach([g.entry], removed=rds, skip_labels=is_exc)
+    rep.check(bool(eof_edges) and g.exit not in r1 and g.exit not in ent and not rets, "TEE1", "loop ends only at end of stream", l, "the only way out after a read is `len(data) == 0` (EOF)",
               "the copy loop can stop before end of stream (output would be truncated)")
-    # each chunk written unchanged to the file and to stream.buffer, on every path to the back edge
+    # each chunk written unchanged to the file and to stream.buffer, on every non-EOF path to the next read / the end
     fvar = None
     for w in walk_local(fi.node):
         if isinstance(w, ast.With):
@@ -68,14 +73,27 @@ def rule_tee1(A: Analysis, rep):
     def on_all_paths(ws):
         if not ws:
             return False
-        r = g.reach([rd], removed=ws, skip_labels=is_exc)
-        return not any(any(m is hdr and is_back(lb) for m, lb in n.succ) for n in r)
+        for rd in rds:
+            seen = set()
+            stack = [m for m, lb in rd.succ if not is_exc(lb)]
+            while stack:
+                n = stack.pop()
+                if n in seen or n in ws:
+                    continue
+                seen.add(n)
+                if n in rds or n is g.exit:
+                    return False
+                for m, lb in n.succ:
+                    if is_exc(lb) or (n, branch_of(lb)) in [(a, b) for a, b in eof_edges]:
+                        continue
+                    stack.append(m)
+        return True
     rep.check(on_all_paths(wr_file), "TEE1", "every chunk reaches the log unchanged", l, "file.write(data) with the very bytes read, on every non-EOF iteration",
               "a chunk read from the pipe is not written unchanged to the log file on every path")
     rep.check(on_all_paths(wr_stream), "TEE1", "every chunk is forwarded unchanged", l, "stream.buffer.write(data) on every non-EOF iteration",
               "a chunk read from the pipe is not forwarded unchanged to Conductor's own stream")
     # data is not reassigned between read and writes
-    redef = [d for d in A.defs(fi, data) if d is not reads[0]]
+    redef = [d for d in A.defs(fi, data) if d not in reads]
     rep.check(not redef, "TEE1", "no transformation of the chunk", l, "", "`%s` is reassigned (%s) between the read and the writes" % (data, [norm(d)[:40] for d in redef]))
     other_writes = [c for c in walk_local(l) if isinstance(c, ast.Call) and isinstance(c.func, ast.Attribute) and c.func.attr == "write" and norm(c.args[0]) != data]
     rep.check(not other_writes, "TEE1", "nothing else is written", l, "", "extra writes in the copy loop: %s" % [norm(c) for c in other_writes])
